@@ -1548,13 +1548,13 @@ impl CoreRuntime {
         }
         self.state.set_call_sub_level(self.metadata.call_sub_level);
         for (name, value) in self.metadata.temps.iter() {
-            if let Some(idx_str) = name.strip_prefix("TEMP") {
-                if let Ok(idx) = idx_str.parse::<u8>() {
-                    self.state.set_reg(
-                        RegName::Temp(idx),
-                        *value & mask_for_width(DEFAULT_REG_WIDTH),
-                    );
-                }
+            // Python-authored snapshots key scratch registers as "<n>", Rust ones as "TEMP<n>".
+            let idx_str = name.strip_prefix("TEMP").unwrap_or(name.as_str());
+            if let Ok(idx) = idx_str.parse::<u8>() {
+                self.state.set_reg(
+                    RegName::Temp(idx),
+                    *value & mask_for_width(DEFAULT_REG_WIDTH),
+                );
             }
         }
         self.fast_mode = self.metadata.fast_mode;
